@@ -507,3 +507,33 @@ Definition client_handshake (h : list N -> list N) (c : client) (s : sresponse) 
       if mem_str p (client_offered_wire c) then CAccept (Some p) d else CUnoffered
   | r => r
   end.
+
+(* ------------------------------------------------------------------ *)
+(* the request a Tornado client sends, and client + server together    *)
+(* ------------------------------------------------------------------ *)
+Definition client_offer_ext : str := s2l "permessage-deflate; client_max_window_bits".
+Definition client_extensions_header (compress : bool) : option str :=
+  if compress then Some client_offer_ext else None.
+
+(* WebSocketClientConnection.__init__ (+ simple_httpclient adding Host from the URL; no Origin) *)
+Definition client_request (c : client) (host : str) : request :=
+  mkReq (Some S_websocket) (Some (s2l "Upgrade")) None None (Some host) (Some (c_key c)) (Some (s2l "13"))
+        (client_protocol_header (c_subprotocols c)) (client_extensions_header (c_compress c)).
+
+(* the handshake headers of the server's 101 (_accept_connection) as the client reads them *)
+Definition response_headers (acc : str) (sub ext : option str) : sresponse :=
+  mkResp (Some S_websocket) (Some (s2l "Upgrade")) (Some acc) sub ext.
+
+Definition status_of_response (r : response) : N :=
+  match r with
+  | R101 _ _ _ => 101 | R400 _ => 400 | R403 => 403 | R426 => 426 | R500 => 500 | ROut => 0
+  end.
+
+(* the server's response to the client's request, and (for a 101) what the client makes of it *)
+Definition loopback (h : list N -> list N) (brk : str -> bool) (a : app) (c : client) (host : str)
+  : response * option cresult :=
+  let resp := handshake h brk a (client_request c host) in
+  match resp with
+  | R101 acc sub ext => (resp, Some (client_handshake h c (response_headers acc sub ext)))
+  | _ => (resp, None)
+  end.
